@@ -226,6 +226,20 @@ def params(sh):
               ('min_n_cycles|detect_bursts_amp %r' % val, exp, lambda val=val: detect_bursts_amp(dfa.copy(), min_n_cycles=val)),
               ('min_n_cycles|compute_features(cycles) %r' % val, exp,
                lambda val=val: compute_features(sig, FS, FR, threshold_kwargs={'min_n_cycles': val}))]
+    for val, exp in ((-1, 'reject'), (-3, 'reject'), (2, 'accept')):
+        P += [('min_n_cycles|compute_features(amp) thresholds %r' % val, exp,
+               lambda val=val: compute_features(sig, FS, FR, burst_method='amp', threshold_kwargs={'burst_fraction_threshold': .5, 'min_n_cycles': val})),
+              ('min_n_cycles|compute_features(amp) burst_kwargs %r' % val, exp,
+               lambda val=val: compute_features(sig, FS, FR, burst_method='amp', burst_kwargs={'min_n_cycles': val},
+                                                threshold_kwargs={'burst_fraction_threshold': .5})),
+              ('min_n_cycles|Bycycle.fit(amp) thresholds %r' % val, exp,
+               lambda val=val: Bycycle(burst_method='amp', thresholds={'burst_fraction_threshold': .5, 'min_n_cycles': val}).fit(sig, FS, FR)),
+              ('min_n_cycles|Bycycle.fit(cycles) thresholds %r' % val, exp,
+               lambda val=val: Bycycle(thresholds={'min_n_cycles': val}).fit(sig, FS, FR)),
+              ('min_n_cycles|BycycleGroup.fit(amp) thresholds %r' % val, exp,
+               lambda val=val: BycycleGroup(burst_method='amp', thresholds={'burst_fraction_threshold': .5, 'min_n_cycles': val}).fit(s2, FS, FR, n_jobs=1)),
+              ('min_n_cycles|compute_features_2d(cycles) thresholds %r' % val, exp,
+               lambda val=val: compute_features_2d(s2, FS, FR, compute_features_kwargs={'threshold_kwargs': {'min_n_cycles': val}}, n_jobs=1))]
     # amplitude thresholds of the dual-threshold detector
     for val, exp in (((2, 1), 'reject'), ((3., .5), 'reject'), ((1, 2), 'accept'), ((.5, 3), 'accept'), ((1, 1), 'either')):
         P += [('amp_threshes|compute_burst_fraction %r' % (val,), exp,
